@@ -599,6 +599,9 @@ def stage_agg(rng, tier, profile, gbin, gmodel, tb, stats):
                 st = o[2][0][1]
                 if cell == "N":
                     rs = "ok:null"
+                elif cell[0] != "D":
+                    viol.append({"kind": "sum-dec-type", "real_type": st, "cell": cell, "stmts": stmts})
+                    rs = "ok:" + cell[1:]
                 else:
                     u, p_, s_ = cell[1:].split("/")
                     if st != "Decimal128(%d,%d)" % (m128, s) or int(s_) != s or int(p_) != m128:
